@@ -172,15 +172,17 @@ class Engine(object):
             self._add(v >= lo)
         return V.SymScalar(t, v)
 
-    def token(self, name):
-        """Opaque symbolic string identity (only ==/!=)."""
+    def token(self, name, literals=False):
+        """Opaque symbolic string identity (only ==/!=).  literals=True: the
+        string may also coincide with literal strings it is compared with
+        (values.SymName)."""
         from . import values as V
         if self.mode == "conc":
             return self.values[name]
         self._fresh(name)
         e = z3.Int(name + "!tok")
         self.vars[name] = ("token", e)
-        return V.SymToken(e)
+        return V.SymName(e) if literals else V.SymToken(e)
 
     def choice(self, name, n):
         """n-way enumerated selector (a fork without solver involvement)."""
@@ -510,7 +512,7 @@ class Engine(object):
             elif kind == "bool":
                 vals[name] = z3.is_true(model.eval(e, model_completion=True))
             elif kind == "token":
-                vals[name] = "tok%d" % model.eval(e, model_completion=True).as_long()
+                vals[name] = V.token_text(model.eval(e, model_completion=True).as_long())
             else:
                 t = model.eval(e[0], model_completion=True).as_long()
                 v = model.eval(e[1], model_completion=True).as_long()
